@@ -181,3 +181,11 @@ Example d7_witnesses :
   print_expr true false true (ECall (EIndex (EId (zs "let")) (EId (zs "x"))) ANil) = zs "(let)[x]()" /\
   print_expr true false true (EBin BAssign (EId (zs "a")) (EIndex (EId (zs "let")) (EId (zs "x")))) = zs "a=let[x]".
 Proof. vm_compute. repeat split. Qed.
+
+(* known finding C13-D10: js_printer prints the initialiser of a for loop with stmtStart off; the text
+   "let[x]" at the start of a for head is a lexical declaration, not the expression that was printed *)
+Example for_head_let_refuted :
+  print_expr true true false (EIndex (EId (zs "let")) (EId (zs "x"))) = zs "let[x]" /\
+  parse_for_head_text (print_expr true true false (EIndex (EId (zs "let")) (EId (zs "x")))) = None /\
+  parse_for_head_text (print_expr true true true (EIndex (EId (zs "let")) (EId (zs "x")))) = Some (EIndex (EId (zs "let")) (EId (zs "x"))).
+Proof. vm_compute. repeat split. Qed.
